@@ -292,12 +292,26 @@ pub fn specials(f: &FieldExp) -> Vec<u64> {
     v
 }
 
-pub fn pairwise_specials(t: u8, len: usize, part: Option<u64>, reps: usize, mix: &mut crate::util::Mix, mut visit: impl FnMut(Vec<u8>)) {
+/// `base`: 0 = the other bits random, 1 = all zero, 2 = "everything unavailable" (every field that has a
+/// 'not available' code carries it, the rest zero) - conjunctions of more than two special values are
+/// only reachable from a background that already has the others in place
+pub fn pairwise_specials(t: u8, len: usize, part: Option<u64>, reps: usize, base: u8, mix: &mut crate::util::Mix, mut visit: impl FnMut(Vec<u8>)) {
     let mk = |mix: &mut crate::util::Mix| {
-        let mut b = mix.bytes(len);
+        let mut b = if base == 0 { mix.bytes(len) } else { vec![0u8; len] };
         set_bits(&mut b, 0, 6, t as u64);
         if let Some(p) = part {
             set_bits(&mut b, 38, 2, p);
+        }
+        if base == 2 {
+            if let RefMsg::Msg(d) = refdecode(&b) {
+                for f in d.fields.iter() {
+                    if let Hint::Sentinels(s) = &f.hint {
+                        if f.width > 0 && f.width < 30 && f.checks.iter().any(|(p, _)| *p == Prop::C11 || f.path.ends_with("timestamp") || f.path.ends_with("utc_second")) || f.path.ends_with("timestamp") {
+                            set_bits(&mut b, f.start, f.width, s[0] & mask(f.width));
+                        }
+                    }
+                }
+            }
         }
         b
     };
